@@ -10,7 +10,7 @@ import (
 
 // VerifHook, when set, is called at the linearization points of the engine
 // protocol (see the vhook calls in engine.go and session.go). Points whose name
-// does not start with "begin.wait", "begin.woke", "session." or "close.done" are
+// does not start with "begin.wait", "begin.woke", "session.", "use." or "close.done" are
 // reached while the engine mutex is held.
 var VerifHook func(point string, e *Engine, txn *Transaction)
 
